@@ -123,8 +123,8 @@ def make_token(I, full=False, vary=None):
         return ('str',) if full else default
     t = I.call(AuthenticationToken, field(E, 'username', kinds('username', all3)), field(E, 'access', kinds('access', all3)),
                field(E, 'client', kinds('client', all3)))
-    t.profile.id_ = field(E, 'pid', kinds('pid', two))
-    t.profile.name = field(E, 'pname', kinds('pname', two))
+    t.profile.id_ = field(E, 'pid', kinds('pid', all3))          # an empty id / name is present (only None means "not populated")
+    t.profile.name = field(E, 'pname', kinds('pname', all3))
     return t
 
 
@@ -182,7 +182,7 @@ class Authenticated(Unit):
         return None
 
     def replay(self, model, label):
-        return dict(confirmed=False, call='authenticated over field presence', observed='')
+        return replay_join_states()
 
     def bounded(self, rng, tier):
         fails, cnt = [], 0
@@ -219,9 +219,10 @@ class Operation(Unit):
         op = self.op
         if op == 'join':
             # authenticated, or exactly one of the five ingredients missing / empty
-            k = E.fork(9, 'join-state')
+            k = E.fork(11, 'join-state')
             miss = [None, ('username', 'none'), ('username', 'empty'), ('access', 'none'), ('access', 'empty'),
-                    ('client', 'none'), ('client', 'empty'), ('pid', 'none'), ('pname', 'none')][k]
+                    ('client', 'none'), ('client', 'empty'), ('pid', 'none'), ('pname', 'none'),
+                    ('pid', 'empty'), ('pname', 'empty')][k]        # the last two are authenticated tokens: join must post
             t = make_token(I, full=True, vary={miss[0]: (miss[1],)} if miss else None)
         elif op == 'sign_out':
             t = None
@@ -355,8 +356,14 @@ class Operation(Unit):
                 if r is not None:
                     fails.append(dict(call='%s with reply %d %r' % (self.op, status, body), observed=r,
                                       witness='%s:%r' % (self.op, body)))
+        if self.op == 'join':
+            rp = replay_join_states()
+            cnt += rp['n']
+            if rp['confirmed']:
+                fails.insert(0, dict(call=rp['call'], observed=rp['observed'], witness='join-state'))
         return dict(name=self.name + '.stub-grid', evaluations=cnt, failures=fails[:2],
-                    bound='6 error statuses x 15 reply bodies through a stub of requests.post')
+                    bound='6 error statuses x 15 reply bodies through a stub of requests.post' +
+                          ('; join on all 3^5 presence combinations of the token fields' if self.op == 'join' else ''))
 
 
 class _Resp(object):
@@ -419,9 +426,50 @@ def replay_success(op):
         requests.post = orig
 
 
+def replay_join_states():
+    """join() on every presence combination of the five ingredients (None / '' / value): it posts exactly once, with the
+    documented payload, exactly when the token reports itself authenticated, and refuses without a request otherwise."""
+    import itertools
+    n = 0
+    for u, a, c, i, nm in itertools.product((None, '', 'user'), (None, '', 'acc'), (None, '', 'cli'), (None, '', 'pid'), (None, '', 'pname')):
+        n += 1
+        posts = []
+        orig = requests.post
+        requests.post = lambda *a_, **k_: (posts.append((a_, k_)), _Resp(204, None))[1]
+        try:
+            t = AuthenticationToken(u, a, c)
+            t.profile.id_, t.profile.name = i, nm
+            want = bool(u) and bool(a) and bool(c) and i is not None and nm is not None
+            k, r = native_call(t.join, 'server-id')
+        finally:
+            requests.post = orig
+        call = 'join() on AuthenticationToken(%r, %r, %r) with profile (%r, %r)' % (u, a, c, i, nm)
+        if t.authenticated is not want:
+            return dict(confirmed=True, n=n, call=call, observed='authenticated = %r' % (t.authenticated,))
+        if want:
+            ok = k == 'ok' and r is True and len(posts) == 1
+            if ok:
+                try:
+                    body = json.loads(posts[0][1].get('data'))
+                    ok = body == {'accessToken': a, 'selectedProfile': {'id': i, 'name': nm}, 'serverId': 'server-id'}
+                except Exception:     # noqa
+                    ok = False
+            if not ok:
+                return dict(confirmed=True, n=n, call=call, observed='the token is authenticated, but join gave %s %r after %d request(s)'
+                            % (k, r, len(posts)))
+        elif not (k == 'raise' and isinstance(r, YggdrasilError) and not posts):
+            return dict(confirmed=True, n=n, call=call, observed='the token is not authenticated, but join gave %s %r after %d request(s)'
+                        % (k, r, len(posts)))
+    return dict(confirmed=False, n=n, call='join over 243 token states', observed='conforms')
+
+
 def replay_op(op, label):
     if op in ('authenticate', 'refresh') and ('stores' in label or 'success' in label):
         return replay_success(op)
+    if op == 'join':
+        rp = replay_join_states()
+        if rp['confirmed']:
+            return rp
     for status in (403, 500):
         for body in ('null', '5', '"error errorMessage"', '["error", "errorMessage"]', '{}', 'not json',
                      '{"error": "E", "errorMessage": "M"}'):
